@@ -531,7 +531,17 @@ func (e *c04Eng) check(i int, op c04Op) {
 			stopped = true
 			s.Do("stop-clone", 300*time.Second, func() { cn.Stop() })
 			os.RemoveAll(base)
-			e.restores = storeStat("num_restores")
+			// the clone restores exactly once iff its image holds a snapshot; any
+			// further restore during its lifetime was an install on the follower
+			r := storeStat("num_restores")
+			own := int64(0)
+			if nsnap > 0 {
+				own = 1
+			}
+			if extra := r - rest0 - own; extra > 0 {
+				c.ProbeN("follower_snapshot_install", int(extra))
+			}
+			e.restores = r
 		}
 	}
 	defer stopClone()
